@@ -442,12 +442,15 @@ def _run_queue_case(ctx, data, cuts, rseed):
                     pos = len(data)
                     break
             elif r < 0.6 and produced[pos] - len(got) > 0:
-                if q._queue.empty():
+                first = q.poll()          # (public API only: is there something for get() to return?)
+                if first is None:
                     # get() would block for ever: the queue lost a message the reference run produced
                     ctx.check('parserqueue sequence == reference', False, 'queue-lost-message', case,
                               {'model_pending': produced[pos] - len(got)})
                     return
-                got.append(q.get())
+                got.append(first)
+                if produced[pos] - len(got) > 0:
+                    got.append(q.get())
         got.extend(q.iterpoll())
         ctx.check('parserqueue sequence == reference', got == ref, 'queue', case,
                   lambda: {'got': [m.hex() for m in got][:10], 'want': [m.hex() for m in ref][:10]})
